@@ -196,6 +196,7 @@ func LogStr(msg string, v string) { Log(fmt.Sprintf("%s %q", msg, v)) }
 // scheduling intrinsics: natively no-ops (replays of schedules use their own gates)
 func Yield()                       {}
 func SetTimers(on bool)            {}
+func FireTimers() int              { time.Sleep(1200 * time.Millisecond); return 0 } // natively: let real time pass
 func RunSpawned(match string) int {
 	if d, ok := spawnWait[match]; ok {
 		time.Sleep(d) // natively the goroutines run by themselves; give their timers time to elapse
